@@ -938,6 +938,59 @@ Proof.
 Qed.
 
 (* ------------------------------------------------------------------ *)
+(* converse: the Spec is sufficient (full characterisation of import)   *)
+(* ------------------------------------------------------------------ *)
+Lemma crt_all_has d : crt_all d -> has_all_prime_factors d = Ok true.
+Proof.
+  intros H. unfold has_all_prime_factors, crt_names in *. cbn [map].
+  rewrite !H by (cbn; tauto). reflexivity.
+Qed.
+
+Lemma crt_none_has d : crt_none d -> has_all_prime_factors d = Ok false.
+Proof.
+  intros H. unfold has_all_prime_factors, crt_names in *. cbn [map].
+  rewrite !H by (cbn; tauto). reflexivity.
+Qed.
+
+Lemma import_spec_complete O kt d n : import_spec O kt d n -> import_from_dict O kt d = Ok n.
+Proof.
+  destruct kt; cbn [import_from_dict import_spec].
+  - intros (k & E & ->). unfold import_oct. rewrite E. reflexivity.
+  - intros (nn & e & En & Ee & H). unfold import_rsa. destruct (has d "d").
+    + destruct H as (Ho & _ & dd & Ed & m & -> & Hm & [C|C]).
+      * destruct C as (CA & <- & <- & <- & Ep & Eq & Edp & Edq & Eqi).
+        rewrite Ho, Ee, En. cbn [bind]. rewrite (crt_all_has d CA). cbn [bind].
+        rewrite Ed, Ep, Eq, Edp, Edq, Eqi. cbn [bind].
+        destruct m as [[n0 e0] d0 p q dp dq qi]. cbn in *. rewrite Hm. reflexivity.
+      * destruct C as (CN & Ec).
+        rewrite Ho, Ee, En. cbn [bind]. rewrite (crt_none_has d CN). cbn [bind].
+        rewrite Ed. cbn [bind]. rewrite Ec. cbn [bind]. rewrite Hm. reflexivity.
+    + destruct H as (-> & Hm). rewrite Ee, En. cbn [bind]. rewrite Hm. reflexivity.
+  - intros (crv & bits & x & y & Ec & B & Ex & Ey & H). unfold import_ec.
+    rewrite Ec. cbn [bind]. rewrite B, Ex, Ey. cbn [bind]. destruct (has d "d").
+    + destruct H as (dd & Ed & Hm & ->). rewrite Ed. cbn [bind]. rewrite Hm. reflexivity.
+    + destruct H as (Hm & ->). rewrite Hm. reflexivity.
+  - intros (crv & Ec & Kn & H). unfold import_okp. rewrite Ec. cbn [bind]. rewrite Kn. cbn [negb].
+    destruct (has d "d").
+    + destruct H as (dd & x & Ed & Hm & ->). rewrite Ed. cbn [bind]. rewrite Hm. reflexivity.
+    + destruct H as (x & Ex & Hm & ->). rewrite Ex. cbn [bind]. rewrite Hm. reflexivity.
+Qed.
+
+Theorem import_iff O kt d ps k :
+  import_key O kt d ps = Ok k <->
+  dict_key_spec kt d /\ dict_key_spec kt (init_data kt d ps) /\ import_spec O kt d (k_native k) /\
+  k_dict k = init_data kt d ps /\ k_type k = kt.
+Proof.
+  split.
+  - intros H. pose proof (reject O kt d ps k H) as (A & B & C).
+    apply import_key_inv in H. destruct H as (_ & _ & _ & E1 & E2). auto.
+  - intros (A & B & C & E1 & E2).
+    apply validate_dict_key_spec in A, B. apply import_spec_complete in C.
+    rewrite (import_key_intro O kt d ps (k_native k) A C B).
+    destruct k as [t n dd]. cbn in *. subst. reflexivity.
+Qed.
+
+(* ------------------------------------------------------------------ *)
 (* table facts (expected literals from RFC 7517 / 7518 / 8037 / 8812)   *)
 (* ------------------------------------------------------------------ *)
 Definition required_names (reg : list kparam) : list string :=
